@@ -255,10 +255,6 @@ def record_text(op):
     return f"{owner} 300 IN {op[2]} {rdata_text(op[2], op[3])}\n"
 
 
-class Failure(Exception):
-    pass
-
-
 class Hist:
     """One zone and its model.  ``fails``: list of (clause, check, context, detail)."""
 
@@ -374,6 +370,24 @@ class Hist:
         o = Oracle(view)
         self.oracle = o
         prev = self.prev_oracle
+        # NS owners of the previous version, of this one, and every owner touched by an NS
+        # operation or a name deletion in the last transaction.  A name is in a
+        # nested-cut situation when it is at or below one of them that has another one
+        # beneath it (the documented model has no nested cuts; the known defects of the
+        # pinned tree all live there, so the context keeps them apart from anything else).
+        nsall = set(prev.ns_owners) | set(o.ns_owners)
+        for op in self.last_ops:
+            if op[0] == "deln" or (len(op) > 2 and op[2] == "NS"):
+                nsall.add(norm(nm(op[1])))
+        nsall.discard(())
+        tops = [u for u in nsall if any(m != u and len(m) > len(u) and m[-len(u):] == u for m in nsall)]
+
+        def nested(n):
+            return any(len(n) >= len(u) and n[-len(u):] == u for u in tops)
+
+        def mark(ctx, n):
+            return ctx + ",nested-ns-owners" if nested(n) else ctx
+
         # index
         idx = set(index)
         if len(idx) != len(index):
@@ -385,30 +399,17 @@ class Hist:
             if n == ():
                 ctx = "apex"
             elif n not in view:
-                ctx = "name-absent"
+                ctx = mark("name-absent", n)
             elif "NS" not in view[n]:
-                ctx = "no-ns-rrset"
+                ctx = mark("no-ns-rrset", n)
             else:
                 ctx = "beneath-another-ns-owner"
             fails.append((CL_INDEX, "index-extra", ctx, f"index has {n} which is not a cut ({ctx}); cuts={sorted(o.cuts)} index={sorted(idx)}"))
         elif missing:
             n = missing[0]
-            pc = prev.cut_of(n)
-            ctx = "was-beneath-cut-before" if (pc is not None and pc != n) else "plain"
+            ctx = "nested-ns-owners" if nested(n) else "plain"
             fails.append((CL_INDEX, "index-missing", ctx, f"cut {n} missing from the index ({ctx}); cuts={sorted(o.cuts)} index={sorted(idx)}"))
         # flags
-        # NS owners of the previous version, of this one, and every owner touched by an NS
-        # operation or a name deletion in the last transaction: a node with two of them
-        # among its proper ancestors sits in a nested-cut situation
-        nsall = set(prev.ns_owners) | set(o.ns_owners)
-        for op in self.last_ops:
-            if op[0] == "deln" or (len(op) > 2 and op[2] == "NS"):
-                nsall.add(norm(nm(op[1])))
-        nsall.discard(())
-
-        def nested(n):
-            return sum(1 for i in range(1, len(n)) if n[i:] in nsall) >= 2
-
         best = None
         for n in o.names:
             want = o.flags[n]
@@ -418,33 +419,24 @@ class Hist:
             diff = want ^ got
             if diff & F_DELEG:
                 if want & F_DELEG:
-                    pc = prev.cut_of(n)
-                    if n in idx:
-                        ctx = "index-has-entry"
-                    elif pc is not None and pc != n:
-                        ctx = "was-beneath-cut-before"
-                    else:
-                        ctx = "index-lacks-entry"
+                    # (with the entry present the flag alone was lost: nesting plays no part)
+                    ctx = "index-has-entry" if n in idx else mark("index-lacks-entry", n)
                     cand = (0, "delegation-flag-missing", ctx)
                 else:
                     if n == ():
                         ctx = "apex"
                     elif "NS" not in view[n]:
-                        ctx = "no-ns-rrset"
+                        ctx = mark("no-ns-rrset", n)
                     else:
                         ctx = "beneath-another-ns-owner"
                     cand = (1, "delegation-flag-extra", ctx)
             elif diff & F_GLUE:
                 if want & F_GLUE:
-                    ctx = "cut-in-index" if o.cut_of(n) in idx else "cut-not-in-index"
-                    if nested(n):
-                        ctx += ",nested-ns-owners"
+                    ctx = mark("cut-in-index" if o.cut_of(n) in idx else "cut-not-in-index", n)
                     cand = (2, "glue-flag-missing", ctx)
                 else:
                     anc = any(n[i:] in idx for i in range(1, len(n)))
-                    ctx = "ancestor-in-index" if anc else "no-ancestor-in-index"
-                    if nested(n):
-                        ctx += ",nested-ns-owners"
+                    ctx = mark("ancestor-in-index" if anc else "no-ancestor-in-index", n)
                     cand = (3, "glue-flag-extra", ctx)
             elif diff & F_ORIGIN:
                 cand = (4, "origin-flag-missing" if want & F_ORIGIN else "origin-flag-extra", "")
